@@ -525,8 +525,143 @@ pub fn run(rep: &mut Report) {
         Some(v) => std::env::set_var("L4V_JOBS", v),
         None => std::env::remove_var("L4V_JOBS"),
     }
+    if rep.tier == "thorough" && std::env::var("L4V_NO_MIRI").is_err() {
+        crate::miri::run_miri_seeds(rep, "C05", 32);
+        if thorough {
+        crate::subrun::merge(rep, "L4V_BIN_BGROT", "C05BG", "background_rotation");
+    }
+    rep.require(rep.counter("miri_seeds_run") >= 32 / 2, "fewer than half of the Miri seeds produced a result");
+    }
     rep.require(rep.counter("rotations_observed") > 500, "fewer than 500 rotations observed");
     rep.require(rep.set_size("trigger_kinds") >= 4, "not all trigger kinds were exercised");
     rep.require(rep.counter("adjacent_cross_thread_pairs") > 100, "concurrent runs did not interleave");
     let _ = Comp::None;
+}
+
+/// Tiny concurrent rolling run for Miri.
+pub fn miri_scenario(rep: &mut Report, rng: &mut Rng) {
+    let sc = Scratch::new("c05m");
+    let kind = RollerKind::Window { base: 0, count: 2 + rng.below(2) as u32, comp: Comp::None, pattern_rel: "app.{}.log".into() };
+    let mut e = Engine::new(sc.path.clone(), true, kind.clone(), TrigSpec::Size(*rng.pick(&[30u64, 60])), 2);
+    if let Err((sig, what)) = e.open() {
+        rep.violation(&format!("C05:{}", sig), json!({"what": what, "under": "miri"}));
+        return;
+    }
+    let app: Arc<Box<dyn Append>> = Arc::new(e.app.take().unwrap());
+    let acks: Arc<Mutex<Vec<Ack>>> = Arc::new(Mutex::new(vec![]));
+    std::thread::scope(|s| {
+        for t in 0..2u32 {
+            let (app, acks) = (app.clone(), acks.clone());
+            s.spawn(move || {
+                let mut mine = vec![];
+                for seq in 0..4u32 {
+                    mine.push(append_frame(&**app, t + 1, seq, 8, true));
+                    std::thread::yield_now();
+                }
+                acks.lock().unwrap().extend(mine);
+            });
+        }
+    });
+    drop(app);
+    let acks = acks.lock().unwrap().clone();
+    if acks.iter().any(|a| !a.ok) {
+        rep.violation("C05:miri:append-failed", json!({}));
+    }
+    let files = dir_files(&sc.path);
+    let res = read_stream(&files, &kind)
+        .map_err(|e| ("archive-does-not-decode".to_owned(), e))
+        .and_then(|b| parse_stream(&b).map_err(|e| ("S:stream-not-whole-frames".to_owned(), e)))
+        .and_then(|p| check_stream(&p, &acks, &StreamOpts { allow_oldest_lost: true }));
+    match res {
+        Err((sig, what)) => rep.violation(&format!("C05:{}", sig), json!({"what": what, "under": "miri"})),
+        Ok(st) => {
+            rep.count("frames_checked", st.frames as i64);
+            rep.observe("thread_order_signatures", &st.order_signature.to_string());
+        }
+    }
+}
+
+/// Runs in the harness binary built with log4rs' `background_rotation` feature: rotation happens on a
+/// spawned thread, so the directory is only judged at quiescent points (no `<stem>.<digits>` temp file left).
+pub fn run_background(rep: &mut Report) {
+    hooks::install();
+    let n = if rep.tier == "thorough" { 120 } else { 12 };
+    let saved = std::env::var("L4V_JOBS").ok();
+    std::env::set_var("L4V_JOBS", "4");
+    run_cases(rep, "bg", n, |rep, rng, idx| {
+        let sc = Scratch::new("c05bg");
+        let threads = 1 + rng.usize_below(4);
+        let per = 30 + rng.usize_below(90);
+        let limit = *rng.pick(&[60u64, 200, 1024]);
+        let count = *rng.pick(&[1u32, 2, 3, 40]);
+        let comp = if cfg!(feature = "full") && rng.chance(1, 3) { Comp::Gz } else { Comp::None };
+        let kind = RollerKind::Window { base: 0, count, comp, pattern_rel: if comp == Comp::Gz { "arch/app.{}.log.gz".into() } else { "arch/app.{}.log".into() } };
+        let desc = json!({"threads": threads, "records_per_thread": per, "size_limit": limit, "roller": kind.describe(), "background_rotation": true});
+        let mut e = Engine::new(sc.path.clone(), true, kind.clone(), TrigSpec::Size(limit), 1);
+        let app = match kind.build(&sc.path).map_err(|e| e.to_string()).and_then(|r| {
+            build_appender(&sc.path, true, Box::new(ChunkEnc { pieces: 1 }), Box::new(SizeTrigger::new(limit)), r).map_err(|e| e.to_string())
+        }) {
+            Ok(a) => Arc::new(a),
+            Err(err) => {
+                rep.violation("C05:bg:build-failed", json!({"run": desc, "error": err}));
+                return;
+            }
+        };
+        e.with_newline = true;
+        let acks: Arc<Mutex<Vec<Ack>>> = Arc::new(Mutex::new(vec![]));
+        std::thread::scope(|s| {
+            for t in 0..threads {
+                let (app, acks) = (app.clone(), acks.clone());
+                let seed = rng.next_u64();
+                s.spawn(move || {
+                    let mut r = Rng::new(seed);
+                    let mut mine = vec![];
+                    for seq in 0..per as u32 {
+                        mine.push(append_frame(&*app, t as u32 + 1, seq, *r.pick(&[5usize, 20, 60, 200]), true));
+                        if r.chance(1, 10) {
+                            std::thread::sleep(std::time::Duration::from_micros(200));
+                        }
+                    }
+                    acks.lock().unwrap().extend(mine);
+                });
+            }
+        });
+        drop(app);
+        // quiescence: the roller renames the active file to <stem>.<digits> and a worker thread rotates it
+        let mut quiet = false;
+        for _ in 0..400 {
+            let files = dir_files(&sc.path);
+            let temp = files.keys().any(|k| k.strip_prefix("app.").map(|r| !r.is_empty() && r.chars().all(|c| c.is_ascii_digit())).unwrap_or(false));
+            if !temp {
+                quiet = true;
+                break;
+            }
+            std::thread::sleep(std::time::Duration::from_millis(10));
+        }
+        if !quiet {
+            rep.inconclusive("background rotation did not become quiescent within 4 s (watchdog)");
+            return;
+        }
+        std::thread::sleep(std::time::Duration::from_millis(20));
+        let acks = acks.lock().unwrap().clone();
+        if acks.iter().any(|a| !a.ok) {
+            rep.violation("C05:bg:append-failed", json!({"run": desc}));
+        }
+        let files = dir_files(&sc.path);
+        let res = read_stream(&files, &kind)
+            .map_err(|e| ("archive-does-not-decode".to_owned(), e))
+            .and_then(|b| parse_stream(&b).map_err(|e| ("S:stream-not-whole-frames".to_owned(), e)))
+            .and_then(|p| check_stream(&p, &acks, &StreamOpts { allow_oldest_lost: true }));
+        rep.case(&format!("{}|{}", desc, idx), true);
+        rep.count("runs", 1);
+        match res {
+            Err((sig, what)) => rep.violation(&format!("C05:bg:{}", sig), json!({"run": desc, "what": what,
+                "files": files.iter().map(|(k, v)| format!("{} ({} bytes)", k, v.len())).collect::<Vec<_>>()})),
+            Ok(st) => rep.count("frames_checked", st.frames as i64),
+        }
+    });
+    match saved {
+        Some(v) => std::env::set_var("L4V_JOBS", v),
+        None => std::env::remove_var("L4V_JOBS"),
+    }
 }
